@@ -231,3 +231,295 @@ Proof.
       unfold cleP, cle, is_prio, is_unord in *.
       destruct (pcls p), (pcls q); try discriminate; reflexivity.
 Qed.
+
+(* ---------- the generic sort: permutation, stability, re-sorting, bridge to sort_participants ---- *)
+
+Lemma filter_all_true {A} (f : A -> bool) l : Forall (fun x => f x = true) l -> filter f l = l.
+Proof.
+  induction l as [|a r IH]; intros H; [reflexivity|].
+  inversion H as [|? ? Ha Hr]; subst. cbn [filter]. rewrite Ha, (IH Hr). reflexivity.
+Qed.
+
+Lemma filter_all_false {A} (f : A -> bool) l : Forall (fun x => f x = false) l -> filter f l = [].
+Proof.
+  induction l as [|a r IH]; intros H; [reflexivity|].
+  inversion H as [|? ? Ha Hr]; subst. cbn [filter]. rewrite Ha. exact (IH Hr).
+Qed.
+
+Lemma filter_filter_sub {A} (f g : A -> bool) l :
+  (forall a, f a = true -> g a = true) -> filter f (filter g l) = filter f l.
+Proof.
+  intros H. induction l as [|a r IH]; [reflexivity|]. cbn [filter].
+  destruct (g a) eqn:Eg; cbn [filter]; [rewrite IH; reflexivity|].
+  destruct (f a) eqn:Ef; [|exact IH]. rewrite (H a Ef) in Eg. discriminate.
+Qed.
+
+Lemma filter_filter_excl {A} (f g : A -> bool) l :
+  (forall a, f a = true -> g a = false) -> filter f (filter g l) = [].
+Proof.
+  intros H. induction l as [|a r IH]; [reflexivity|]. cbn [filter].
+  destruct (g a) eqn:Eg; [|exact IH]. cbn [filter].
+  destruct (f a) eqn:Ef; [|exact IH]. rewrite (H a Ef) in Eg. discriminate.
+Qed.
+
+Lemma filter_map_comm {A B} (f : A -> B) (q : B -> bool) l :
+  filter q (map f l) = map f (filter (fun a => q (f a)) l).
+Proof.
+  induction l as [|a r IH]; [reflexivity|]. cbn [map filter].
+  destruct (q (f a)); cbn [map]; rewrite IH; reflexivity.
+Qed.
+
+Section GenericSortProofs.
+  Context {A : Type} (cls : A -> pclass).
+
+  Lemma g_insert_perm a l : Permutation (a :: l) (g_insert cls a l).
+  Proof.
+    induction l as [|q r IH]; cbn [g_insert]; [reflexivity|].
+    destruct (g_order cls q <? g_order cls a); [|reflexivity].
+    rewrite perm_swap. apply perm_skip. exact IH.
+  Qed.
+
+  Lemma g_isort_perm l : Permutation l (g_isort cls l).
+  Proof.
+    induction l as [|p r IH]; cbn [g_isort]; [reflexivity|].
+    rewrite <- g_insert_perm. apply perm_skip. exact IH.
+  Qed.
+
+  Lemma g_partition3_perm l :
+    Permutation l (filter (g_is_prio cls) l ++ filter (g_is_ord cls) l ++ filter (g_is_unord cls) l).
+  Proof.
+    induction l as [|p r IH]; cbn [filter app]; [reflexivity|].
+    unfold g_is_prio, g_is_ord, g_is_unord at 1 2 3.
+    destruct (cls p) as [o|o|]; cbn [app].
+    - apply perm_skip. exact IH.
+    - rewrite <- Permutation_middle. apply perm_skip. exact IH.
+    - rewrite app_assoc. rewrite <- Permutation_middle. rewrite <- app_assoc.
+      apply perm_skip. exact IH.
+  Qed.
+
+  (* every element exactly once *)
+  Lemma g_sort_perm l : Permutation l (g_sort cls l).
+  Proof. unfold g_sort. rewrite <- !g_isort_perm. apply g_partition3_perm. Qed.
+
+  Lemma g_isort_Forall (P : A -> Prop) l : Forall P l -> Forall P (g_isort cls l).
+  Proof. apply Forall_perm. apply g_isort_perm. Qed.
+
+  (* --- inserting in either order, when the Orders differ --- *)
+  Lemma g_insert_comm x y l :
+    g_order cls y < g_order cls x ->
+    g_insert cls y (g_insert cls x l) = g_insert cls x (g_insert cls y l).
+  Proof.
+    intros Hxy. induction l as [|q r IH]; cbn [g_insert].
+    - destruct (Z.ltb_spec (g_order cls x) (g_order cls y)); [lia|].
+      destruct (Z.ltb_spec (g_order cls y) (g_order cls x)); [reflexivity|lia].
+    - destruct (Z.ltb_spec (g_order cls q) (g_order cls x)) as [Hqx|Hqx];
+        destruct (Z.ltb_spec (g_order cls q) (g_order cls y)) as [Hqy|Hqy]; cbn [g_insert].
+      + destruct (Z.ltb_spec (g_order cls q) (g_order cls y)); [|lia].
+        destruct (Z.ltb_spec (g_order cls q) (g_order cls x)); [|lia].
+        rewrite IH. reflexivity.
+      + destruct (Z.ltb_spec (g_order cls q) (g_order cls y)); [lia|].
+        destruct (Z.ltb_spec (g_order cls y) (g_order cls x)); [|lia].
+        cbn [g_insert]. destruct (Z.ltb_spec (g_order cls q) (g_order cls x)); [reflexivity|lia].
+      + lia.
+      + destruct (Z.ltb_spec (g_order cls x) (g_order cls y)); [lia|].
+        destruct (Z.ltb_spec (g_order cls y) (g_order cls x)); [|lia].
+        cbn [g_insert]. destruct (Z.ltb_spec (g_order cls q) (g_order cls x)); [lia|reflexivity].
+  Qed.
+
+  Lemma g_fold_insert x S T :
+    fold_right (g_insert cls) S (g_insert cls x T) = g_insert cls x (fold_right (g_insert cls) S T).
+  Proof.
+    induction T as [|y T' IH]; [reflexivity|]. cbn [g_insert].
+    destruct (Z.ltb_spec (g_order cls y) (g_order cls x)) as [H|H]; [|reflexivity].
+    cbn [fold_right]. rewrite IH. apply g_insert_comm, H.
+  Qed.
+
+  Lemma g_isort_app a b : g_isort cls (a ++ b) = fold_right (g_insert cls) (g_isort cls b) a.
+  Proof. induction a as [|x r IH]; [reflexivity|]. cbn [app g_isort fold_right]. rewrite IH. reflexivity. Qed.
+
+  (* sorting a sorted block followed by new elements = sorting everything *)
+  Lemma g_isort_resort a b : g_isort cls (g_isort cls a ++ b) = g_isort cls (a ++ b).
+  Proof.
+    rewrite !g_isort_app. induction a as [|x r IH]; [reflexivity|].
+    cbn [g_isort fold_right]. rewrite g_fold_insert, IH. reflexivity.
+  Qed.
+
+  Lemma g_prio_not_ord a : g_is_prio cls a = true -> g_is_ord cls a = false.
+  Proof. unfold g_is_prio, g_is_ord. destruct (cls a); congruence. Qed.
+  Lemma g_prio_not_unord a : g_is_prio cls a = true -> g_is_unord cls a = false.
+  Proof. unfold g_is_prio, g_is_unord. destruct (cls a); congruence. Qed.
+  Lemma g_ord_not_prio a : g_is_ord cls a = true -> g_is_prio cls a = false.
+  Proof. unfold g_is_prio, g_is_ord. destruct (cls a); congruence. Qed.
+  Lemma g_ord_not_unord a : g_is_ord cls a = true -> g_is_unord cls a = false.
+  Proof. unfold g_is_ord, g_is_unord. destruct (cls a); congruence. Qed.
+  Lemma g_unord_not_prio a : g_is_unord cls a = true -> g_is_prio cls a = false.
+  Proof. unfold g_is_prio, g_is_unord. destruct (cls a); congruence. Qed.
+  Lemma g_unord_not_ord a : g_is_unord cls a = true -> g_is_ord cls a = false.
+  Proof. unfold g_is_ord, g_is_unord. destruct (cls a); congruence. Qed.
+
+  Lemma Forall_impl_bool (f g : A -> bool) (b : bool) l :
+    (forall a, f a = true -> g a = b) -> Forall (fun x => f x = true) l -> Forall (fun x => g x = b) l.
+  Proof. intros H. apply Forall_impl. exact H. Qed.
+
+  (* the three blocks of the result *)
+  Lemma g_sort_filter_prio l : filter (g_is_prio cls) (g_sort cls l) = g_isort cls (filter (g_is_prio cls) l).
+  Proof.
+    unfold g_sort. rewrite !filter_app.
+    rewrite (filter_all_true (g_is_prio cls) (g_isort cls (filter (g_is_prio cls) l)));
+      [|apply g_isort_Forall, Forall_filter_self].
+    rewrite (filter_all_false (g_is_prio cls) (g_isort cls (filter (g_is_ord cls) l))).
+    - rewrite (filter_filter_excl (g_is_prio cls) (g_is_unord cls)); [|apply g_prio_not_unord].
+      rewrite !app_nil_r. reflexivity.
+    - apply g_isort_Forall. eapply Forall_impl_bool; [apply g_ord_not_prio|apply Forall_filter_self].
+  Qed.
+
+  Lemma g_sort_filter_ord l : filter (g_is_ord cls) (g_sort cls l) = g_isort cls (filter (g_is_ord cls) l).
+  Proof.
+    unfold g_sort. rewrite !filter_app.
+    rewrite (filter_all_true (g_is_ord cls) (g_isort cls (filter (g_is_ord cls) l)));
+      [|apply g_isort_Forall, Forall_filter_self].
+    rewrite (filter_all_false (g_is_ord cls) (g_isort cls (filter (g_is_prio cls) l))).
+    - rewrite (filter_filter_excl (g_is_ord cls) (g_is_unord cls)); [|apply g_ord_not_unord].
+      rewrite app_nil_r. reflexivity.
+    - apply g_isort_Forall. eapply Forall_impl_bool; [apply g_prio_not_ord|apply Forall_filter_self].
+  Qed.
+
+  Lemma g_sort_filter_unord l : filter (g_is_unord cls) (g_sort cls l) = filter (g_is_unord cls) l.
+  Proof.
+    unfold g_sort. rewrite !filter_app.
+    rewrite (filter_all_false (g_is_unord cls) (g_isort cls (filter (g_is_prio cls) l))).
+    - rewrite (filter_all_false (g_is_unord cls) (g_isort cls (filter (g_is_ord cls) l))).
+      + cbn [app]. apply filter_filter_sub. tauto.
+      + apply g_isort_Forall. eapply Forall_impl_bool; [apply g_ord_not_unord|apply Forall_filter_self].
+    - apply g_isort_Forall. eapply Forall_impl_bool; [apply g_prio_not_unord|apply Forall_filter_self].
+  Qed.
+
+  (* Sorting again after appending: the result of an earlier sort followed by newly registered elements sorts
+     to the same sequence as all elements in registration order (configure.go stores the sorted loaders back). *)
+  Lemma g_sort_resort l1 l2 : g_sort cls (g_sort cls l1 ++ l2) = g_sort cls (l1 ++ l2).
+  Proof.
+    unfold g_sort at 1 3. rewrite !filter_app.
+    rewrite g_sort_filter_prio, g_sort_filter_ord, g_sort_filter_unord, !g_isort_resort.
+    reflexivity.
+  Qed.
+
+  Lemma g_sort_idem l : g_sort cls (g_sort cls l) = g_sort cls l.
+  Proof.
+    rewrite <- (app_nil_r (g_sort cls l)) at 1. rewrite g_sort_resort, app_nil_r. reflexivity.
+  Qed.
+
+  (* --- stability --- *)
+  Lemma g_insert_filter (f : A -> bool) a l :
+    (forall q, f q = true -> f a = true -> g_order cls q = g_order cls a) ->
+    filter f (g_insert cls a l) = filter f (a :: l).
+  Proof.
+    intros H. induction l as [|q r IH]; [reflexivity|]. cbn [g_insert].
+    destruct (Z.ltb_spec (g_order cls q) (g_order cls a)) as [Hlt|Hge]; [|reflexivity].
+    cbn [filter] in *. rewrite IH.
+    destruct (f q) eqn:Eq; destruct (f a) eqn:Ea; try reflexivity.
+    specialize (H q Eq eq_refl). lia.
+  Qed.
+
+  Lemma g_isort_filter (f : A -> bool) l :
+    (forall p q, f p = true -> f q = true -> g_order cls p = g_order cls q) ->
+    filter f (g_isort cls l) = filter f l.
+  Proof.
+    intros H. induction l as [|a r IH]; [reflexivity|]. cbn [g_isort].
+    rewrite g_insert_filter; [|intros q Hq Ha; apply H; assumption].
+    cbn [filter]. rewrite IH. reflexivity.
+  Qed.
+
+  Lemma same_class_order a b c :
+    same_class (cls a) c = true -> same_class (cls b) c = true -> g_order cls a = g_order cls b.
+  Proof.
+    unfold g_order, same_class. destruct (cls a), (cls b), c; try discriminate; intros H1 H2;
+      try reflexivity; apply Z.eqb_eq in H1, H2; lia.
+  Qed.
+
+  (* elements of one class and Order keep their registration order *)
+  Lemma g_sort_stable c l :
+    filter (fun a => same_class (cls a) c) (g_sort cls l) = filter (fun a => same_class (cls a) c) l.
+  Proof.
+    set (f := fun a => same_class (cls a) c).
+    assert (Hf : forall p q, f p = true -> f q = true -> g_order cls p = g_order cls q)
+      by (intros p q; apply same_class_order).
+    unfold g_sort. rewrite !filter_app, !(g_isort_filter f) by exact Hf.
+    destruct c as [k|k|].
+    - rewrite (filter_filter_sub f (g_is_prio cls)), (filter_filter_excl f (g_is_ord cls)),
+        (filter_filter_excl f (g_is_unord cls)); [rewrite !app_nil_r; reflexivity| | |];
+        intros a; unfold f, same_class, g_is_prio, g_is_ord, g_is_unord; destruct (cls a); congruence.
+    - rewrite (filter_filter_excl f (g_is_prio cls)), (filter_filter_sub f (g_is_ord cls)),
+        (filter_filter_excl f (g_is_unord cls)); [rewrite !app_nil_r; reflexivity| | |];
+        intros a; unfold f, same_class, g_is_prio, g_is_ord, g_is_unord; destruct (cls a); congruence.
+    - rewrite (filter_filter_excl f (g_is_prio cls)), (filter_filter_excl f (g_is_ord cls)),
+        (filter_filter_sub f (g_is_unord cls)); [reflexivity| | |];
+        intros a; unfold f, same_class, g_is_prio, g_is_ord, g_is_unord; destruct (cls a); congruence.
+  Qed.
+
+  (* a block whose Orders are all equal is left as it is *)
+  Lemma g_isort_equal_keys l :
+    (forall p q, In p l -> In q l -> g_order cls p = g_order cls q) -> g_isort cls l = l.
+  Proof.
+    induction l as [|a r IH]; intros H; [reflexivity|]. cbn [g_isort].
+    rewrite IH by (intros p q Hp Hq; apply H; right; assumption).
+    destruct r as [|q r']; [reflexivity|]. cbn [g_insert].
+    rewrite (H q a) by (cbn; tauto). rewrite Z.ltb_irrefl. reflexivity.
+  Qed.
+
+  (* --- the sort commutes with a class-preserving map --- *)
+  Lemma g_insert_map {B} (f : A -> B) (clsB : B -> pclass) a l :
+    (forall a, cls a = clsB (f a)) ->
+    map f (g_insert cls a l) = g_insert clsB (f a) (map f l).
+  Proof.
+    intros H. induction l as [|q r IH]; [reflexivity|]. cbn [g_insert map].
+    replace (g_order clsB (f q)) with (g_order cls q) by (unfold g_order; rewrite H; reflexivity).
+    replace (g_order clsB (f a)) with (g_order cls a) by (unfold g_order; rewrite H; reflexivity).
+    destruct (g_order cls q <? g_order cls a); cbn [map]; [rewrite IH|]; reflexivity.
+  Qed.
+
+  Lemma g_isort_map {B} (f : A -> B) (clsB : B -> pclass) l :
+    (forall a, cls a = clsB (f a)) -> map f (g_isort cls l) = g_isort clsB (map f l).
+  Proof.
+    intros H. induction l as [|a r IH]; [reflexivity|]. cbn [g_isort map].
+    rewrite (g_insert_map f clsB) by exact H. rewrite IH. reflexivity.
+  Qed.
+
+  Lemma g_sort_map {B} (f : A -> B) (clsB : B -> pclass) l :
+    (forall a, cls a = clsB (f a)) -> map f (g_sort cls l) = g_sort clsB (map f l).
+  Proof.
+    intros H. unfold g_sort. rewrite !map_app, !(g_isort_map f clsB) by exact H.
+    rewrite !filter_map_comm.
+    assert (E1 : forall l, filter (g_is_prio cls) l = filter (fun a => g_is_prio clsB (f a)) l)
+      by (intros l0; apply filter_ext; intros a; unfold g_is_prio; rewrite H; reflexivity).
+    assert (E2 : forall l, filter (g_is_ord cls) l = filter (fun a => g_is_ord clsB (f a)) l)
+      by (intros l0; apply filter_ext; intros a; unfold g_is_ord; rewrite H; reflexivity).
+    assert (E3 : forall l, filter (g_is_unord cls) l = filter (fun a => g_is_unord clsB (f a)) l)
+      by (intros l0; apply filter_ext; intros a; unfold g_is_unord; rewrite H; reflexivity).
+    rewrite E1, E2, E3. reflexivity.
+  Qed.
+End GenericSortProofs.
+
+(* on participants the generic sort is the model of SortOrderedComponents *)
+Lemma insert_by_generic p l : insert_by p l = g_insert pcls p l.
+Proof.
+  induction l as [|q r IH]; [reflexivity|]. cbn [insert_by g_insert].
+  change (g_order pcls q) with (order_of q). change (g_order pcls p) with (order_of p).
+  rewrite IH. reflexivity.
+Qed.
+
+Lemma isort_generic l : isort l = g_isort pcls l.
+Proof.
+  induction l as [|p r IH]; [reflexivity|]. cbn [isort g_isort].
+  rewrite insert_by_generic, IH. reflexivity.
+Qed.
+
+Lemma sort_participants_generic l : sort_participants l = g_sort pcls l.
+Proof. unfold sort_participants, g_sort. rewrite !isort_generic. reflexivity. Qed.
+
+Lemma sort_participants_resort l1 l2 :
+  sort_participants (sort_participants l1 ++ l2) = sort_participants (l1 ++ l2).
+Proof. rewrite !sort_participants_generic. apply g_sort_resort. Qed.
+
+Lemma sort_participants_stable c l :
+  filter (fun p => same_class (pcls p) c) (sort_participants l) = filter (fun p => same_class (pcls p) c) l.
+Proof. rewrite sort_participants_generic. apply g_sort_stable. Qed.
